@@ -17,7 +17,7 @@ from sim.trace import EventLog, canon
 CASE_TIMEOUT = 180
 LEVEL = {"C08": "exploration"}
 PLAN = {"C08": {
-    "quick": {"runs": 30000, "wall_cap": 110, "chunk": 100, "selftest": 8},
+    "quick": {"runs": 14000, "wall_cap": 110, "chunk": 50, "selftest": 8},
     "thorough": {"runs": 900000, "wall_cap": 1700, "chunk": 200, "selftest": 40},
 }}
 RULE = {"C08": (
@@ -45,7 +45,7 @@ ASSUMPTIONS = {"C08": [
 EXPECTED_PROBES = {"C08": ["probe:all_recorded_trials_failed_no_tree", "pool:out_of_order", "fault:trial_exception", "fault:trial_badtrial", "probe:cancelled_inflight",
                            "probe:second_search", "probe:postproc", "probe:reference_compared", "fault:clock_jump",
                            "probe:early_stop", "pool:mode:process", "pool:mode:thread", "fault:trial_objective",
-                           "fault:poll_lag_batched_completions", "probe:simultaneous_completions", "probe:compressed_search"]}
+                           "fault:poll_lag_batched_completions", "probe:simultaneous_completions", "probe:compressed_search", "probe:preemptive_task_switches", "pool:mode:thread-preemptive"]}
 
 
 def violation_class(v):
@@ -87,7 +87,9 @@ def _make_wrapper(simname, realname):
         if fault == "badtrial":
             raise BadTrial(f"injected bad trial {d}")
         prng.reseed_globals(d)
-        return H._PATH_FNS[realname](inputs, output, size_dict, **kwargs)
+        tree = H._PATH_FNS[realname](inputs, output, size_dict, **kwargs)
+        tree._sim_digest = d  # lets a fault in the scoring step be attributed to this trial (travels with pickling)
+        return tree
 
     wrapper.__name__ = wrapper.__qualname__ = "_wrap_" + simname.replace("-", "_")
     return wrapper
@@ -139,10 +141,10 @@ def custom_objective_faulty(trial):
     knows; the failure is recorded against the trial that was just built."""
     from cotengra.scoring import get_score_fn
 
-    if _STATE["obj_rate"] > 0 and _STATE["trace"]:
-        d, fault = _STATE["trace"][-1]
-        if fault is None and (prng.H(_STATE["fault_seed"], "objective", d) % 10000) < _STATE["obj_rate"] * 10000:
-            _STATE["trace"][-1] = (d, "objective")
+    d = getattr(trial["tree"], "_sim_digest", None)
+    if _STATE["obj_rate"] > 0 and d is not None:
+        if (prng.H(_STATE["fault_seed"], "objective", d) % 10000) < _STATE["obj_rate"] * 10000:
+            _STATE["trace"].append((d, "objective"))
             raise ArithmeticError(f"injected objective fault {d}")
     return get_score_fn("flops")(trial) + 0.5 * math.log2(trial["tree"].max_size() + 1)
 
@@ -205,7 +207,8 @@ def gen_case(prop, seed, tier):
         post = {}
     pool = None
     if sw.random() < 0.7:
-        pool = {"workers": sw.randint(1, 6), "mode": sw.choice(["thread", "process"]), "seed": sw.randrange(2 ** 31),
+        pool = {"workers": sw.randint(1, 6), "mode": sw.choice(["thread", "thread", "thread", "process", "process", "process", "thread-preemptive"]), "seed": sw.randrange(2 ** 31),
+                "switch_p": sw.choice([0.01, 0.05, 0.2]),
                 "slow": sw.random() < 0.3, "grid": sw.choice([None, None, 0.25]), "poll_lag": sw.choice([0.0, 0.0, 0.3, 0.8])}
     optlib = sw.choice(["random", "random", "random", "cmaes"])
     if optlib == "cmaes":
@@ -268,6 +271,23 @@ def _mk_opt(ctg, case, pool, faulty):
     if case.get("compressed"):
         return HyperCompressedOptimizer(**kw)
     return HyperOptimizer(**kw)
+
+
+_PRE_WL = {
+    "hyper.py": None,
+    "core.py": {"contract_stats", "subtree_reconfigure", "subtree_reconfigure_forest", "slice", "slice_and_reconfigure",
+                "slice_and_reconfigure_forest", "remove_ind", "restore_ind", "copy", "set_state_from", "_remove_node", "_update_tracked",
+                "total_flops", "total_write", "max_size", "_reconfigure_tree", "_slice_and_reconfigure_tree", "_get_tree_info"},
+    "path_simulated_annealing.py": {"simulated_anneal_tree", "parallel_temper_tree", "_do_anneal", "_score_tree"},
+    "scoring.py": {"__call__", "ensure_basic_quantities_are_computed"},
+}
+
+
+def _preempt_whitelist(base, name, full):
+    if "cotengra" not in full or base not in _PRE_WL:
+        return False
+    names = _PRE_WL[base]
+    return names is None or name in names
 
 
 def _records(opt, start=0):
@@ -343,9 +363,24 @@ def _run_once(ctg, case, use_pool, use_faults, log, counters, faults, with_clock
     output = tuple(net["output"])
     size_dict = dict(net["size_dict"])
     results = []
-    with simclock.activate(clk):
+    sched = None
+    if use_pool and case["pool"] is not None and case["pool"]["mode"] == "thread-preemptive":
+        # a real THREAD pool: tasks are simulated threads sharing objects, interleaved at line granularity
+        from sim import threads as simthreads
+
+        spec = case["pool"]
+        sched = simthreads.Scheduler(simthreads.WalkChooser(random.Random(spec["seed"]), spec.get("switch_p", 0.05)), _preempt_whitelist,
+                                     max_points=5_000_000)
+        pool = simthreads.PreemptivePool(sched, spec["workers"])
+        clk.oversleep = None
+        clk.sleep_hook = lambda: sched.yield_now(sched.index_of_current())
+    holder = {}
+
+    def body():
+      with simclock.activate(clk):
         prng.reseed_globals(prng.H(case["seed"], "hyper-init"))
         opt = _mk_opt(ctg, case, pool, use_faults)
+        holder["opt"] = opt
         for s in range(case["searches"]):
             n_before = len(opt.scores)
             sub_before = pool.stats["submitted"] if pool is not None else 0
@@ -369,7 +404,15 @@ def _run_once(ctg, case, use_pool, use_faults, log, counters, faults, with_clock
                 after_search(opt, pool, s, res)
             if res["raised"] is not None:
                 break
-    return {"opt": opt, "pool": pool, "results": results, "clk": clk}
+
+    if sched is None:
+        body()
+    else:
+        errs = sched.run([body], [1], [None])
+        if errs and errs[0] is not None:
+            raise errs[0]
+        counters["probe:preemptive_task_switches"] += sched.switches
+    return {"opt": holder["opt"], "pool": pool, "results": results, "clk": clk}
 
 
 def _stats_of(tree):
@@ -409,7 +452,7 @@ def run_case(prop, case):
         recs = res["records"]
         tot[0] += len(recs)
         injected = [t for t in res["trace"] if t[1] is not None]
-        executed = len(res["trace"])
+        executed = sum(1 for t in res["trace"] if t[1] != "objective")
         for t in injected:
             faults["fault:trial_" + t[1]] += 1
         log.add("search", si, [(r["digest"], r["flops"], r["write"], r["size"]) for r in recs],
@@ -557,7 +600,9 @@ def run_case(prop, case):
                     break
 
     # ---- oracle 2: refinement against the serial fault-free reference ----------
-    comparable = (case["optlib"] == "random" and case["max_time"] is None and not violations
+    preemptive = case["pool"] is not None and case["pool"]["mode"] == "thread-preemptive"
+    # (with genuinely interleaved tasks the shared global RNG makes a trial depend on the schedule: invariants only)
+    comparable = (not preemptive and case["optlib"] == "random" and case["max_time"] is None and not violations
                   and all(r["raised"] is None for r in sim["results"]))
     if comparable:
         ref = _run_once(ctg, case, False, False, log, C(), C(), False)
